@@ -9,6 +9,7 @@ Line protocol of ssv_c11 (one line in, one line out):
   recv <key> <src> none | ip <a> <port> <pl> | dom <d> <port> <pl>
                                                           -> noop | new <sid> <qlen> | old <sid> <qlen>
   initok <sid> | initfail <sid> | evict <sid>             -> ok | noop
+  packerr <sid>                                           -> ok | noop   (PackInPlace fails for a non-resolver reason)
   take <sid>                                              -> noop | sent <ip> <port> <pl> | hit | resolving <d>
   resolved <sid> <ip|fail>                                -> ok | noop
   storeip <sid>                                           -> ok | noop
@@ -87,6 +88,9 @@ def stepC11 (d : DSt) (line : String) : DSt × String :=
           | _ => lastSent d.st st'
         | none => "noop"
       ({ d with st := st' }, out)
+    | none => (d, "bad-op")
+  | ["packerr", sid] => match sid.toNat? with
+    | some i => let st' := packErr d.st i; ({ d with st := st' }, sessChanged d.st st' i)
     | none => (d, "bad-op")
   | ["resolved", sid, ans] => match sid.toNat? with
     | some i =>
